@@ -354,6 +354,9 @@ func Run(c Cfg, choose Chooser, maxLabels int) Result {
 							for _, ev := range BOEvents {
 								opts = append(opts, fmt.Sprintf("ZB:%c%d%s:%s", trig[0], a.Index, trig[1:], ev))
 							}
+							if (c.Data || c.Trailers) && trig[0] != 'P' {
+								opts = append(opts, fmt.Sprintf("ZB:%c%d%s:DS", trig[0], a.Index, trig[1:]))
+							}
 							if !c.TryTimeout && !c.LongGlobal && hasGT {
 								for _, ev := range BOTimerEvents {
 									opts = append(opts, fmt.Sprintf("ZB:%c%d%s:%s", trig[0], a.Index, trig[1:], ev))
